@@ -224,7 +224,7 @@ def ctl_bytes(seq):
 class C04(Prop):
     id = "C04"
     modules = ["H3.Props.C04", "H3.Lemmas.GenAgreeCtl"]
-    engines = ["ctl"]
+    engines = ["ctl", "flt"]
     design_ref = "DESIGN.md section 7, C04"
     level_text = ("Lean theorems over models of AcceptRecvStream::{poll_next_varint,poll_type,into_stream}, "
                   "ConnectionInner::{poll_accept_recv,poll_control,poll_grease_stream,process_goaway}, server "
@@ -234,7 +234,10 @@ class C04(Prop):
                   "H3_INTERNAL_ERROR; for every history of stream arrivals and control-stream items the first connection "
                   "error is the one the RFC 9114 §6.2/§7.2 table demands and there is none where the table has none; for "
                   "every grease-stream script (poll_open_send/send_data/poll_ready/poll_finish answering pending/ok/err in "
-                  "any pattern) every frame the frame layer delivers is handed to the role handler exactly once, in order")
+                  "any pattern) every frame the frame layer delivers is handed to the role handler exactly once, in order, and "
+                  "the outcome does not depend on the grease script at all (an error on the grease stream is never a connection "
+                  "error); a stopped or broken own control stream is H3_CLOSED_CRITICAL_STREAM at the write that meets it (setup, "
+                  "shutdown); a client that is handed a server-initiated bidirectional stream raises H3_STREAM_CREATION_ERROR")
     level_note = ("trusted: Lean kernel + 3 standard axioms; hand models tied to the code by running real h3::server/"
                   "h3::client connections over SimQuic on the same scenario lines (engine ctl); the frame layer below "
                   "poll_control is C02's model (FS.pollNext); the scenario environment (SimQuic credits, task mailbox) is "
@@ -247,10 +250,17 @@ class C04(Prop):
             "{open, FIN, RESET} at every frame boundary and inside frames x chunkings; (C) up to 4 streams of 7 kinds, all "
             "kind sequences of length<=3 x all delivery orders, random length 4; (D) grease on/off x stream credit uc=3/4 + "
             "gu<n> at every position x write credit wc=0/5/100 + gw at every position x STOP_SENDING on the grease stream; "
-            "both roles; non-trivial = the projected implementation result differs from the idle line (something was "
-            "closed, returned, listed, stopped, or the grease stream moved)")
-    trusted = ["SimQuic (harness/src/sim.rs) as the transport contract: in-order delivery, sticky FIN/RESET, non-empty chunks",
-               "the scenario environment part of lean/H3/Drv/C04.lean (credits, build phase, task mailbox)",
+            "both roles; (D') stream errors (StreamTerminated, Unknown) injected at poll_open_send / send_data / poll_ready / "
+            "poll_finish of the grease stream (and poll_finish answering Pending once) at every position of (D); (E) engine `flt` (tools/props/faults.py): every "
+            "transport call of the setup x every ConnectionErrorIncoming / StreamErrorIncoming variant, the same on the own "
+            "control stream at shutdown, at poll_accept_recv / poll_accept_bidi / reads of the peer's control stream and of an "
+            "untyped stream, on the grease stream, peer close/timeout at every position, a server-initiated bidi stream to a "
+            "client; non-trivial = the projected implementation result differs from the idle line (something was "
+            "closed, returned, listed, stopped, or the grease stream moved; flt: a fault fired, a close, an error result)")
+    trusted = ["SimQuic (harness/src/sim.rs) as the transport contract: in-order delivery, sticky FIN/RESET, non-empty chunks; "
+               "injected connection errors are sticky (the connection has failed) and wake every waiting task",
+               "the scenario environment part of lean/H3/Drv/C04.lean (credits, build phase, task mailbox) and of "
+               "lean/H3/Drv/Fault.lean (fault table, sticky connection error, mailbox)",
                "translator decision tables H3.Gen.CtlArms (arms of ConnectionInner::poll_control before/after SETTINGS, process_goaway, server poll_next_control, client poll_close, per variant of enum Frame) and H3.Gen.UniArms (AcceptRecvStream::into_stream, poll_type, the two matches of poll_accept_recv), re-read from h3/src/connection.rs, h3/src/server/connection.rs, h3/src/client/connection.rs, h3/src/stream.rs on this run (any other shape is refused); tied to the models by H3.Lemmas.GenAgreeCtl (classify_frame, handle_agrees, processGoaway_agrees, intoStream_agrees, needsId_agrees, acceptKind_agrees, acceptArrival_agrees, grease_not_blocking), rebuilt on this run"]
     assumptions = ["transport chunks are non-empty (R-T)", "overlapping rules accept either code (R-04)",
                    "the application keeps accept()/wait_idle() in flight (the driver is polled when something arrives)",
@@ -258,6 +268,17 @@ class C04(Prop):
 
     def project(self, line, impl):
         return project(line, impl)
+
+    def project_all(self, lines, impls):
+        from props import faults
+        res = [None] * len(lines)
+        idx = [i for i, l in enumerate(lines) if l.startswith("flt")]
+        for i, p in zip(idx, faults.project_all([lines[i] for i in idx], [impls[i] for i in idx])):
+            res[i] = p
+        for i, l in enumerate(lines):
+            if res[i] is None:
+                res[i] = project(l, impls[i])
+        return res
 
     # -------------------------------------------------------------- families
 
@@ -436,6 +457,13 @@ class C04(Prop):
                 ("g1,wc=100", grants, [[]]),
                 ("g1,uc=3,wc=0", grants, [["gu1"], ["gu1", "gw%d:100" % gs], ["gw%d:100" % gs, "gu1"]]),
                 ("g0,wc=0", grants, [[]]),
+                # stream errors injected at each call of the grease stream (never a connection error, no frame lost)
+                ("g1", [], [["!%s:%s" % (site, e)] for site in ("ou3", "sd%d" % gs, "pr%d" % gs, "pf%d" % gs) for e in ("X7", "K")]
+                 + [["!pf%d:P" % gs], ["!pr%d:K" % gs, "!pf%d:P" % gs]]),
+                ("g1,uc=3", [], [["!ou3:K", "gu1"], ["gu1", "!pr%d:X9" % gs]]),
+                ("g1,wc=0", grants, [["!pr%d:K" % gs], ["gw%d:5" % gs, "!pr%d:X3" % gs], ["!pf%d:K" % gs, "gw%d:100" % gs],
+                                     ["!sd%d:X1" % gs], ["!pf%d:P" % gs, "gw%d:100" % gs]]),
+                ("g0", [], [["!ou3:K"], ["!pr%d:X7" % gs]]),
             ]
             for cfg, pre, extras in cfgs:
                 for seq in seqs:
@@ -473,6 +501,9 @@ class C04(Prop):
                 L.append(l)
 
         self.fam_grease(big, rng, add)
+        from props import faults
+        for l in faults.cases(big, rng):
+            add(l)
         self.fam_types(big, rng, add)
         self.fam_orders(big, rng, add)
         self.fam_control(big, rng, add)
@@ -480,6 +511,9 @@ class C04(Prop):
 
     def klass(self, line, impl):
         w = line.split()
+        if w[0].startswith("flt"):
+            from props import faults
+            return faults.klass(line, impl)
         if " | " not in impl:
             return w[1] + "/" + impl.split(" ")[0]
         t = impl.split()
@@ -488,9 +522,13 @@ class C04(Prop):
         u = "U" if t[2] != "U=-" else "-"
         stops = "stop" if "stops=[]" not in impl else "-"
         g = [x for x in t if x.startswith("g=")][0]
-        return "%s/closed=%s/res=%s/%s/%s/%s" % (w[1], closed, res, u, stops, g)
+        gf = [re.sub(r"\d+", "", o.split(":")[0]) for o in w[3:] if o.startswith("!")]
+        return "%s/closed=%s/res=%s/%s/%s/%s%s" % (w[1], closed, res, u, stops, g, "/fault=" + "+".join(gf) if gf else "")
 
     def trivial(self, line, impl):
+        if line.startswith("flt"):
+            from props import faults
+            return faults.trivial(line, impl)
         return (" | " not in impl) or bool(re.match(r"^closed=\[\] res=- U=-(/-)* \| build=\w+ stops=\[\] g=none pending=", impl))
 
     def shrink_candidates(self, line):
@@ -505,7 +543,7 @@ class C04(Prop):
             if ma and mb and ma.group(1) == mb.group(1):
                 out.append(" ".join(head + [cfg] + ops[:i] + ["s%s:%s%s" % (ma.group(1), ma.group(2), mb.group(2))] + ops[i + 2:]))
         items = cfg.split(",")
-        for i in range(len(items)):
+        for i in range(len(items) if not line.startswith("flt") else 0):   # flt: the cfg is what makes the history observable
             rest = items[:i] + items[i + 1:]
             out.append(" ".join(head + [",".join(rest) if rest else "-"] + ops))
         for i, o in enumerate(ops):
